@@ -19,6 +19,7 @@
     flatten_cache_irrelevant_full flatten_cached_is_xml_flatten flat_cache_stale_entry_violates_inv
     flat_cache_typed_key_collision_witness ser_cache_irrelevant_full lite_flatten_is_xml_flatten
     render_full_cache_irrelevant render_full_extends_render strip_only_whitespace_full_partial
+    ser_typed_conservative
 -/
 import Genshi.Lemmas.Output
 import Genshi.Lemmas.OutputFlatten
@@ -29,6 +30,7 @@ import Genshi.Lemmas.OutputSafeText
 import Genshi.Lemmas.OutputMarkupAttr
 import Genshi.Lemmas.OutputFlattenCacheC
 import Genshi.Lemmas.OutputFlattenLiteFull
+import Genshi.Lemmas.OutputFlatPipeline
 import Genshi.Model.OutputPipeline
 import Genshi.Model.OutputFlatPipeline
 import Genshi.Model.OutputPipelineFull
@@ -356,6 +358,24 @@ theorem render_full_extends_render (m : Method) (cfg : Cfg) (s : Stream) (out : 
     have hcomp : (ofTF ∘ Xml.TFEv.ofF) = ofXF := by funext x; exact ofTF_ofF x
     rw [hcomp, hl]
     exact h
+
+/-- the typed pipeline extends the plain one conservatively: on a stream whose attribute values are
+    all plain strings, `serT` (flattener with cache + typed main loop) behind `EmptyTagFilter` writes
+    what `renderFull` writes with `strip_whitespace=False` and no doctype option -/
+theorem ser_typed_conservative (m : Method) (c dropd : Bool) (s : Stream) :
+    serT m ⟨dropd⟩ (prefOf m) c ((emptyTag none s).map fun e => Xml.TXEv.ofX (toX e)) =
+    renderFull m { strip := false, cache := c, doctype := none, dropXmlDecl := dropd } s := by
+  have h1 := serT_plain m ⟨dropd⟩ (prefOf m) c ((emptyTag none s).map toX)
+  simp only [List.map_map] at h1
+  have hfun : (Xml.TXEv.ofX ∘ toX) = fun e => Xml.TXEv.ofX (toX e) := rfl
+  rw [hfun] at h1
+  rw [h1]
+  have hc := flatten_cached_is_xml_flatten (prefOf m) c ((emptyTag none s).map toX)
+  simp only [List.map_map] at hc
+  rw [hfun] at hc
+  simp only [renderFull, filteredFull, preFlat, withDoctype, Bool.false_eq_true, ↓reduceIte, hc, List.map_map]
+  have hcomp : (ofTF ∘ Xml.TFEv.ofF) = ofXF := by funext x; exact ofTF_ofF x
+  rw [hcomp]
 
 /-- outside the lite domain (`render` answers `none`): two prefixed namespaces, a re-bound prefix -/
 example : renderFull .xml { strip := false, cache := true }
